@@ -10,7 +10,7 @@ Open Scope Z_scope.
 Inductive lentry :=
 | LDue                                   (* Reset() on the spy: this tick was decided "due" *)
 | LSnap                                  (* a Snapshot call begins *)
-| LSB (id : N) (k : bytes) (v : N) (ok : bool)   (* about to call cb(k, v, err); ok = (err == nil) *)
+| LSB (id : N) (spy : nat) (k : bytes) (v : N) (ok : bool)   (* spy number [spy] is about to call cb(k, v, err); ok = (err == nil) *)
 | LSA (id : N)                           (* cb returned *)
 | LJob (n : nat)                         (* Upload of job n (inside trieMutex) *)
 | LStopReq | LStopRet                    (* the harness calls Stop() / Stop() returned *)
@@ -18,12 +18,16 @@ Inductive lentry :=
 
 Record ojob := {
   oj_name : bytes; oj_start : Z; oj_end : Z; oj_spy : bytes; oj_rate : N; oj_units : bytes; oj_agg : bytes;
-  oj_data : list (bytes * N);            (* Trie.Iterate of the uploaded trie *)
+  oj_data : list (bytes * N);            (* Trie.Iterate of the uploaded trie, inside Upload *)
+  oj_late : list (bytes * N);            (* the same trie read again when the session is over (a slow uploader) *)
+  oj_shared : bool;                      (* the very same *Trie had been handed over with an earlier job *)
   oj_by_stop : bool                      (* uploaded by the goroutine that called Stop() *)
 }.
 
 Record case := {
-  q_app : bytes; q_spy : bytes; q_rate : N; q_interval : Z; q_ptype : ptype;
+  q_app : bytes; q_spy : bytes; q_rate : N; q_interval : Z;
+  q_gospy : bool;                        (* the gospy branch: one spy and one trie per profile type (driven through the verif hook) *)
+  q_ptypes : list ptype;
   q_log : list lentry;
   q_jobs : list ojob;
   q_start_lo : Z; q_start_hi : Z;        (* wall clock around Start() *)
@@ -33,25 +37,27 @@ Record case := {
 }.
 
 Definition cfg_of (c : case) : scfg :=
-  {| sc_app := q_app c; sc_spy := q_spy c; sc_gospy := false; sc_rate := q_rate c;
-     sc_interval := q_interval c; sc_types := [q_ptype c] |}.
+  {| sc_app := q_app c; sc_spy := q_spy c; sc_gospy := q_gospy c; sc_rate := q_rate c;
+     sc_interval := q_interval c; sc_types := q_ptypes c |}.
 
 (* ---- samples of the log ---------------------------------------------------------------------------- *)
-Record osample := { os_id : N; os_k : bytes; os_v : N; os_ok : bool; os_done_before_stop : bool }.
+Record osample := { os_id : N; os_spy : nat; os_k : bytes; os_v : N; os_ok : bool; os_done_before_stop : bool }.
 
 (* walk the log; [stopreq] = Stop already requested; the sample is "reported before Stop was requested" when
    its callback returned before the request *)
-Fixpoint samples_of (log : list lentry) (stopreq : bool) (open : option (N * bytes * N * bool)) : list osample :=
+Fixpoint samples_of (log : list lentry) (stopreq : bool) (open : option (N * nat * bytes * N * bool)) : list osample :=
   match log with
   | [] => match open with
-          | Some (id, k, v, ok) => [{| os_id := id; os_k := k; os_v := v; os_ok := ok; os_done_before_stop := false |}]
+          | Some (id, sp, k, v, ok) =>
+              [{| os_id := id; os_spy := sp; os_k := k; os_v := v; os_ok := ok; os_done_before_stop := false |}]
           | None => []
           end
-  | LSB id k v ok :: l => samples_of l stopreq (Some (id, k, v, ok))
+  | LSB id sp k v ok :: l => samples_of l stopreq (Some (id, sp, k, v, ok))
   | LSA _ :: l =>
       match open with
-      | Some (id, k, v, ok) =>
-          {| os_id := id; os_k := k; os_v := v; os_ok := ok; os_done_before_stop := negb stopreq |} :: samples_of l stopreq None
+      | Some (id, sp, k, v, ok) =>
+          {| os_id := id; os_spy := sp; os_k := k; os_v := v; os_ok := ok; os_done_before_stop := negb stopreq |}
+          :: samples_of l stopreq None
       | None => samples_of l stopreq None
       end
   | LStopReq :: l => samples_of l true open
@@ -83,12 +89,23 @@ Fixpoint ordered (js : list ojob) : bool :=
 Fixpoint job_after_stop_job (js : list ojob) : bool :=
   match js with
   | [] => false
-  | j :: rest => if oj_by_stop j then negb (match rest with [] => true | _ => false end) else job_after_stop_job rest
+  | j :: rest => if oj_by_stop j then existsb (fun j' => negb (oj_by_stop j')) rest else job_after_stop_job rest
   end.
 
 (* ---- replaying the log on the model ----------------------------------------------------------------- *)
 Definition next_start (jobs : list ojob) (m : nat) (dflt : Z) : Z :=
   match nth_error jobs m with Some j => oj_start j | None => dflt end.
+
+(* the clock reading of the reset that uploaded job n = the start of the next LATER upload (the jobs of one upload,
+   one per profile type, share their window) *)
+Definition later_start (jobs : list ojob) (n : nat) (dflt : Z) : Z :=
+  match nth_error jobs n with
+  | Some j => match find (fun j' => negb (oj_start j' =? oj_start j)) (skipn (S n) jobs) with
+              | Some j' => oj_start j'
+              | None => dflt
+              end
+  | None => dflt
+  end.
 
 Definition apply (c : scfg) (st : list ujob * sstate) (e : sevent) : list ujob * sstate :=
   let '(js, s') := s_step c (snd st) e in ((fst st ++ js)%list, s').
@@ -96,10 +113,10 @@ Definition apply (c : scfg) (st : list ujob * sstate) (e : sevent) : list ujob *
 (* [at_sb]: place a sample where its callback STARTED (true) or where it RETURNED (false); the two placements
    differ only for the one callback that may have been blocked on trieMutex while Stop() uploaded *)
 Fixpoint replay (c : scfg) (jobs : list ojob) (at_sb : bool) (log : list lentry) (njobs : nat) (fresh : bool)
-         (open : option (bytes * N * bool)) (last_end : Z) (st : list ujob * sstate) : list ujob * sstate :=
+         (open : option (nat * bytes * N * bool)) (last_end : Z) (st : list ujob * sstate) : list ujob * sstate :=
   let sample st o :=
     match o with
-    | Some (k, v, true) => apply c st (SSample 0 k v)
+    | Some (sp, k, v, true) => apply c st (SSample sp k v)
     | _ => st
     end in
   match log with
@@ -113,9 +130,9 @@ Fixpoint replay (c : scfg) (jobs : list ojob) (at_sb : bool) (log : list lentry)
       | LSnap =>
           let st1 := if fresh then st else apply c st (SReset (next_start jobs njobs last_end)) in
           replay c jobs at_sb l njobs false open last_end st1
-      | LSB _ k v ok =>
-          let st1 := if at_sb then sample st (Some (k, v, ok)) else st in
-          replay c jobs at_sb l njobs fresh (Some (k, v, ok)) last_end st1
+      | LSB _ sp k v ok =>
+          let st1 := if at_sb then sample st (Some (sp, k, v, ok)) else st in
+          replay c jobs at_sb l njobs fresh (Some (sp, k, v, ok)) last_end st1
       | LSA _ =>
           let st1 := if at_sb then st else sample st open in
           replay c jobs at_sb l njobs fresh None last_end st1
@@ -123,7 +140,7 @@ Fixpoint replay (c : scfg) (jobs : list ojob) (at_sb : bool) (log : list lentry)
           match nth_error jobs n with
           | Some j =>
               let st1 := if oj_by_stop j then apply c st (SStop (oj_end j))
-                         else apply c st (SReset (next_start jobs (S n) (oj_end j))) in
+                         else apply c st (SReset (later_start jobs n (oj_end j))) in
               replay c jobs at_sb l (S n) fresh open (oj_end j) st1
           | None => st
           end
@@ -156,15 +173,18 @@ Definition model_jobs (c : case) (at_sb : bool) : list ujob :=
   let st0 := apply cfg ([], s_init cfg) (SStart t0) in
   fst (replay cfg (q_jobs c) at_sb (q_log c) 0 false None t0 st0).
 
-Definition check_case (c : case) : verdict :=
-  let cfg := cfg_of c in
-  let I := q_interval c in
-  let js := q_jobs c in
-  let ss := samples_of (q_log c) false None in
-  let cumul := pt_cumulative (q_ptype c) in
-  let p := q_ptype c in
+(* per profile type (slot): its samples and its jobs *)
+Definition slot_samples (c : case) (i : nat) (ss : list osample) : list osample :=
+  if q_gospy c then filter (fun x => Nat.eqb (os_spy x) i) ss else ss.
+Definition slot_jobs (c : case) (p : ptype) (js : list ojob) : list ojob :=
+  filter (fun j => beqb (oj_name j) (job_name (cfg_of c) p)) js.
+
+Definition check_slot (c : case) (ss : list osample) (js : list ojob) (ip : nat * ptype) : verdict :=
+  let p := snd ip in
+  let ss := slot_samples c (fst ip) ss in
+  let js := slot_jobs c p js in
+  let cumul := pt_cumulative p in
   combine_verdicts [
-    (* --- the property evaluated on what the implementation uploaded --- *)
     spec (cumul || forallb (fun s => negb (usable s && os_done_before_stop s) ||
                                     negb (N.eqb (uploaded_total (os_k s) js) 0)) ss)
          "a sample reported before Stop was requested is missing from the uploads";
@@ -176,11 +196,32 @@ Definition check_case (c : case) : verdict :=
                       | None => N.eqb (snd kv) 0
                       end) (oj_data j)) js)
          "more was uploaded than was reported (unknown stack or wrong count)";
-    spec (forallb (fun j => beqb (oj_name j) (job_name cfg p) && beqb (oj_spy j) (q_spy c) && N.eqb (oj_rate j) (q_rate c) &&
-                            beqb (oj_units j) (pt_units p) && beqb (oj_agg j) (pt_agg p)) js)
+    spec (forallb (fun j => beqb (oj_units j) (pt_units p) && beqb (oj_agg j) (pt_agg p)) js)
+         "units or aggregation type differ from the profile type's";
+    spec (ordered js) "a window starts before the previous one (of the same profile type) ended";
+    corr (match js with
+          | j :: _ => cumul || ((q_start_lo c <=? oj_start j) && (oj_start j <=? q_start_hi c))
+          | [] => cumul
+          end) "the first window does not start when Start() ran (or no job at all was uploaded)"
+  ].
+
+Fixpoint enumerate {A} (i : nat) (l : list A) : list (nat * A) :=
+  match l with [] => [] | x :: l' => (i, x) :: enumerate (S i) l' end.
+
+Definition check_case (c : case) : verdict :=
+  let cfg := cfg_of c in
+  let I := q_interval c in
+  let js := q_jobs c in
+  let ss := samples_of (q_log c) false None in
+  combine_verdicts (
+    map (check_slot c ss js) (enumerate 0 (q_ptypes c)) ++ [
+    (* --- the property evaluated on what the implementation uploaded --- *)
+    spec (forallb (fun j => negb (oj_shared j) && ms_eqb (oj_data j) (oj_late j)) js)
+         "a trie handed to the uploader was written to afterwards or handed over twice (a queued job would upload other samples)";
+    spec (forallb (fun j => existsb (fun p => beqb (oj_name j) (job_name cfg p)) (q_ptypes c) &&
+                            beqb (oj_spy j) (q_spy c) && N.eqb (oj_rate j) (q_rate c)) js)
          "job name or metadata differ from <app>.<type> / the session's configuration";
     spec (forallb (fun j => (oj_end j) mod I =? 0) js) "a window does not end on a multiple of the upload interval";
-    spec (ordered js) "a window starts before the previous one ended";
     (* fixed in /repo 628ae12: a tick overlapping Stop used to upload a second window with the same start *)
     spec (negb (job_after_stop_job js)) "a job was uploaded after the job uploaded by Stop()";
     (* stated hypothesis: clock observations of the sampling loop less than a third of the interval apart *)
@@ -189,15 +230,11 @@ Definition check_case (c : case) : verdict :=
     (* --- model vs implementation --- *)
     corr (jobs_eqb (model_jobs c false) js || jobs_eqb (model_jobs c true) js)
          "the jobs (windows, names, contents) differ from the session model replayed on the same log";
-    corr (match js with
-          | j :: _ => cumul || ((q_start_lo c <=? oj_start j) && (oj_start j <=? q_start_hi c))
-          | [] => false
-          end) "the first window does not start when Start() ran (or no job at all was uploaded)";
     corr (forallb (fun j => negb (oj_by_stop j) ||
                             ((trunc I (q_stop_lo c) <=? oj_end j) && (oj_end j <=? trunc I (q_stop_hi c)))) js &&
           existsb oj_by_stop js)
          "Stop() did not upload a window ending at the truncated stop time"
-  ].
+  ]).
 
 (* the case files write bytes and counts as plain N literals, times with %Z, indexes with %nat *)
 Open Scope N_scope.
